@@ -259,3 +259,25 @@ package layout
 //@   ensures conserved: !isnil(l) ==> wsum(res, len(res)) == colsum(l.Columns, len(l.Columns))
 //@   loop 0:
 //@     invariant wsum(result, len(result)) == colsum(l.Columns, $i)
+
+// ---- C09: paragraph detection over the reading-order sections neither loses nor duplicates lines ----
+//@ func (*ParagraphLayout) ParagraphCount
+//@   flags inline
+//@ func (*ParagraphLayout) GetParagraph
+//@   flags inline
+//@ func (*ParagraphDetector) Detect results (res)
+//@   property C09
+//@   flags nosafety
+//@   ensures conserved: !isnil(res) && parasum(res.Paragraphs, len(res.Paragraphs)) == linesum(lines, len(lines))
+//@ spec rec prefix func secsum(ss []ReadingSection, n int) int = n <= 0 ? 0 : secsum(ss, n - 1) + linesum(ss[n-1].Lines, len(ss[n-1].Lines))
+//@ func (*ReadingOrderResult) GetParagraphs results (res)
+//@   property C09
+//@   flags nosafety
+//@   requires !isnil(r)
+//@   ensures conserved_over_sections: len(r.Lines) > 0 && len(r.Sections) > 1 ==> !isnil(res) && parasum(res.Paragraphs, len(res.Paragraphs)) == secsum(r.Sections, len(r.Sections))
+//@   ensures conserved_single_section: len(r.Lines) > 0 && len(r.Sections) <= 1 ==> !isnil(res) && parasum(res.Paragraphs, len(res.Paragraphs)) == linesum(r.Lines, len(r.Lines))
+//@   loop 0:
+//@     invariant parasum(allParagraphs, len(allParagraphs)) == secsum(r.Sections, $i)
+//@   loop 1:
+//@     invariant 0 <= i && i <= len(sectionLayout.Paragraphs) && !isnil(sectionLayout) && parasum(allParagraphs, len(allParagraphs)) == secsum(r.Sections, $i) + parasum(sectionLayout.Paragraphs, i)
+//@     decreases len(sectionLayout.Paragraphs) - i
